@@ -469,7 +469,7 @@ func checkDiscovery(t testing.TB, rs []route, profiling bool) {
 
 // TestC14 enumerates route x method x credential class x transport and random variants.
 func TestC14(t *testing.T) {
-	col := ev.Get("C14", "routes", "routes and methods discovered with chi.Walk over the server's router (profiling on and off) x both slash variants and spellings of the path with dot segments, doubled slashes or the profiling prefix in front x all HTTP methods x generated invalid credentials of 23 classes (none, empty, garbage, oversized, wrong scheme, wrong/prefix/empty secret, alg none with/without signature, HS384/HS512/RS256 headers with the right secret, expired or not yet valid (from 3 s outside the window), tampered payload/header, truncated/bit-flipped signature, 2/4/5 segments, signature of another payload) x 6 transports (Authorization in three spellings, cookie, query, header+cookie); oracle: registered (method,route) => exactly 401, any other => not 2xx; body and response headers reveal none of the planted ids/names/log and variable markers and hand out no valid token; runner state identical before and after; profiling off => /debug paths 404; positive controls with a valid token must pass; non-trivial = every probe of a registered route; distinct by (method, route, credential class, transport)")
+	col := ev.Get("C14", "routes", "routes and methods discovered with chi.Walk over the server's router (profiling on and off) x both slash variants and spellings of the path with dot segments, doubled slashes or the profiling prefix in front x all HTTP methods x generated invalid credentials of 23 classes (none, empty, garbage, oversized, wrong scheme, wrong/prefix/empty secret, alg none with/without signature, HS384/HS512/RS256 headers with the right secret, expired or not yet valid (from 3 s outside the window), tampered payload/header, truncated/bit-flipped signature, 2/4/5 segments, signature of another payload) x 6 transports (Authorization in three spellings, cookie, query, header+cookie); oracle: registered (method,route) => exactly 401, any other => not 2xx; body and response headers - also of the token-exempt profiling routes - reveal none of the planted ids/names/log and variable markers and hand out no valid token; runner state identical before and after; profiling off => /debug paths 404; positive controls with a valid token must pass; non-trivial = every probe of a registered route; distinct by (method, route, credential class, transport)")
 	for _, profiling := range []bool{false, true} {
 		w := newWorld(t, profiling)
 		rs := walk(t, w.handler)
@@ -548,13 +548,25 @@ func TestC14(t *testing.T) {
 			if isDebug && (strings.Contains(pattern, "profile") || strings.Contains(pattern, "trace") || strings.Contains(pattern, "*")) {
 				rt.Skip("profiling handlers that sample for seconds are not probed")
 			}
-			res := w.do(w.buildRequest(method, path, c, tr))
+			req := w.buildRequest(method, path, c, tr)
+			sentURI := req.URL.String()
+			res := w.do(req)
 			probes++
 			exact := registered[method+" "+pattern] && slash == "asis"
 			desc := fmt.Sprintf("%s %s (%s) cred=%s via %s profiling=%v", method, pattern, slash, c.Class, tr, profiling)
 			if isDebug {
 				if !profiling {
 					rt.Fatalf("%s: debug route exists with profiling disabled", desc)
+				}
+				// the profiling routes are exempt from the token - not from "reveals nothing": what they show is
+				// the process (command line, memory statistics, stacks), not the jobs, their variables or their logs
+				for _, m := range w.markers() {
+					if strings.Contains(sentURI, m) {
+						continue // (a redirect echoes the request's own URL: that is the client's knowledge, not the runner's)
+					}
+					if strings.Contains(res.Body, m) {
+						rt.Fatalf("%s: the profiling route reveals %q of the runner's state to a request without a valid token", desc, m)
+					}
 				}
 			} else {
 				if exact && res.Code != 401 {
@@ -586,6 +598,13 @@ func TestC14(t *testing.T) {
 			}
 			if profiling && res.Code == 401 {
 				t.Fatalf("profiling enabled but GET %s demands a token", p)
+			}
+			if profiling {
+				for _, m := range w.markers() {
+					if strings.Contains(res.Body, m) {
+						t.Fatalf("[C14] profiling enabled: GET %s without a token reveals %q of the runner's state", p, m)
+					}
+				}
 			}
 		}
 		if profiling {
